@@ -82,6 +82,7 @@ Apply(r) == st' = r.st /\ g' = r.g /\ ge' = r.ge /\ bad' = bad \cup r.bad
 ----------------------------------------------------------------------------
 Connect(c) ==
     /\ Running /\ ConnectEnabled(st, c)
+    /\ ~st.cli[c].lastNotDisc        \* the client runs a frame (its reset) before it connects again, as in MC_Core
     /\ st.ev.sess[c] = 0 \/ b.recon < Reconnects
     /\ st' = ConnectIt(st, c)
     /\ ge' = EvGhostConnect(ge, c)
